@@ -579,6 +579,7 @@ def plan(tier):
     units += [('unknown', i) for i in range(0, len(specs), 8)]
     units += [('eq-pairs', i) for i in range(len(specs))]
     units += [('eq-perturb', i) for i in range(len(specs))]
+    units.append(('eq-shared', 0))
     return {
         'units': units,
         'rule': '%d base trees (states reachable in <= %d construct/add '
@@ -593,7 +594,9 @@ def plan(tier):
                 'unknown attribute names. Equality: all ordered pairs of '
                 'base trees; every single-field perturbation (each option '
                 'changed/removed, custom option added, each content changed, '
-                'change/file added, removed, swapped) at every depth. '
+                'change/file added, removed, swapped) at every depth; trees '
+                'whose metadata holds the same list / dict object in several '
+                'places, one occurrence changed at a time, both orders. '
                 'Non-trivial: rejected assignment on a tree with >= 1 file, '
                 'or perturbation at depth >= 2.'
                 % (len(specs), 3 if tier == 'quick' else 4),
@@ -610,6 +613,24 @@ def run_unit(unit, tier):
     acc = Acc()
     specs = base_specs(tier)
     kindu, i = unit
+    if kindu == 'eq-shared':
+        n = len(shared_positions())
+        for sl in (True, False):
+            for sr in (True, False):
+                for pi in [None] + list(range(n)):
+                    viols = check_shared(pi, sl, sr)
+                    acc.evals += 1
+                    acc.states += 1
+                    acc.transitions += 3
+                    acc.validated += 1
+                    acc.nontrivial += 1
+                    for key, msg in viols:
+                        acc.violation(key + ':shared-substructure', msg,
+                                      {'kind': 'eq-shared', 'pi': pi,
+                                       'sl': sl, 'sr': sr})
+                    acc.outcome('ok' if not viols else 'violation')
+        acc.sample({'shared_substructure_positions': n}, 1)
+        return acc
 
     def rec(viols, payload, nt):
         acc.evals += 1
@@ -684,6 +705,76 @@ def run_unit(unit, tier):
     return acc
 
 
+def shared_tree(share):
+    """A tree whose metadata holds the SAME list / dict object in several
+    places (share=True) or equal but distinct objects (share=False)."""
+    import copy
+
+    def mk():
+        X = ['x', {'k': 1}]
+        Y = {'n': [1, 2]}
+        c_ = (lambda o: o) if share else copy.deepcopy
+        return X, Y, c_
+    X, Y, c_ = mk()
+    d = DiffX(meta={'a': c_(X), 'b': c_(X), 'c': [c_(Y), c_(Y)],
+                    'd': {'p': c_(Y), 'q': c_(X)}}, preamble='p\n')
+    ch = d.add_change(meta={'l': c_(X), 'm': c_(X)})
+    ch.add_file(meta={'path': 'f', 'u': c_(Y), 'v': c_(Y), 'w': [c_(X)]})
+    return d
+
+
+def shared_positions():
+    """(section path, key path) of every container occurrence."""
+    out = []
+    t = shared_tree(False)
+    for path, sec in sections_of(t):
+        if getattr(sec, 'data_type', None) is dict and sec._content:
+            def walk(o, kp):
+                if isinstance(o, dict):
+                    for k in sorted(o):
+                        if isinstance(o[k], (dict, list)):
+                            out.append((path, kp + (k,)))
+                            walk(o[k], kp + (k,))
+                elif isinstance(o, list):
+                    for i, x in enumerate(o):
+                        if isinstance(x, (dict, list)):
+                            out.append((path, kp + (i,)))
+                            walk(x, kp + (i,))
+            walk(sec._content, ())
+    return out
+
+
+def check_shared(pos_index, share_left, share_right):
+    """Left and right trees are equal except at ONE container occurrence of
+    the right tree, which is replaced by a modified copy."""
+    import copy
+    a = shared_tree(share_left)
+    b = shared_tree(share_right)
+    v = eq_checks(a, b, 'equal trees, sharing %r / %r'
+                  % (share_left, share_right))
+    if pos_index is None:
+        return v
+    path, kp = shared_positions()[pos_index]
+    sec = resolve(b, path)
+    o = sec._content
+    for k in kp[:-1]:
+        # un-share the ancestors on the way down so that only this one
+        # occurrence changes
+        o[k] = copy.copy(o[k])
+        o = o[k]
+    new = copy.deepcopy(o[kp[-1]])
+    if isinstance(new, list):
+        new.append('changed')
+    else:
+        new['changed'] = True
+    o[kp[-1]] = new
+    label = 'one occurrence changed at %s %r (sharing %r / %r)' % (
+        path, kp, share_left, share_right)
+    v += eq_checks(a, b, label)
+    v += eq_checks(b, a, label + ' reversed')
+    return v
+
+
 def check_unknown(sp, ctor, name):
     v = []
     tree = build_tree(sp)
@@ -710,6 +801,10 @@ def check_unknown(sp, ctor, name):
 
 def replay(payload):
     k = payload.get('kind')
+    if k == 'eq-shared':
+        return [{'key': k_ + ':shared-substructure', 'msg': m}
+                for k_, m in check_shared(payload['pi'], payload['sl'],
+                                          payload['sr'])]
     if k == 'assign-subclass':
         typ, choices, where = ATTRS[payload['skind']][payload['name']]
         value, valid = candidates(typ, choices)[payload['index']]
